@@ -670,7 +670,7 @@ def localise(spec, kind, expr, env):
     """Smallest sub-term that is mistranslated on its own, and the operand
     positions whose replacement by a plain variable repairs it."""
     cands, seen = [], set()
-    for s in sorted((s for s in subtrees(expr) if is_op(s)), key=size):
+    for s in sorted((s for s in visited(expr) if is_op(s)), key=size):
         k = json.dumps(s)
         if k not in seen:
             seen.add(k)
@@ -1167,7 +1167,7 @@ class IntGen:
             (a, va), (b, vb) = sub(), sub()
             return ["If", c, a, b], (va if vc else vb)
         if op == "Power":
-            ex = self.pick((0, 1, 2, 2, 2))
+            ex = self.pick((0, 1, 1, 2, 2))
             b, vb = self.any(depth - 1) if self.i(0, 2) == 0 else sub()
             if ex == 1 and vb < 0:
                 ex = 2
@@ -1387,7 +1387,7 @@ class FloatGen:
             b, vb = sub()
             c = self.i(0, 5)
             if c <= 2:
-                ex = self.pick((-2, -1, 0, 1, 2, 2, 3))
+                ex = self.pick((-2, -1, 0, 1, 1, 2, 2, 3))
                 if ex < 0 and abs(vb) < 1e-3:
                     b = self.positive(b, -1.0)
                 return ["Power", b, C(ex)]
